@@ -508,3 +508,50 @@ pub fn run(args: &Args) {
     );
     let _ = (IpAddr::V4(Ipv4Addr::LOCALHOST), 0);
 }
+
+/// `udp-quiet`: connection ids on a QUIET tracker. One tracker per case (mio with a 1 ms poll timeout,
+/// or io_uring with its 5 s clock pulse), max_connection_age = 2 s: connect, announce (answered),
+/// then no traffic at all for 5 s (mio) / 9 s (io_uring), then an announce with the OLD id, which
+/// must stay unanswered: the validator's clock has to advance without any datagram arriving.
+pub fn run_quiet(args: &Args) {
+    crate::drive(args, 0x9e7, |_rng, _keep, seed, header, items| {
+        let uring = seed.wrapping_sub(args.seed) % 2 == 1; // the two backends alternate
+        let port = free_port();
+        let mut c = Config::default();
+        c.socket_workers = 1;
+        c.network.address_ipv4 = SocketAddrV4::new(Ipv4Addr::UNSPECIFIED, port);
+        c.network.address_ipv6 = SocketAddrV6::new(Ipv6Addr::UNSPECIFIED, port, 0, 0);
+        c.network.use_io_uring = uring;
+        c.network.poll_timeout_ms = 1;
+        c.network.socket_recv_buffer_size = 0;
+        c.cleaning.max_connection_age = 2;
+        c.cleaning.torrent_cleaning_interval = 100_000;
+        c.statistics.interval = 0;
+        std::thread::spawn(move || {
+            let _ = aquatic_udp::run(c);
+        });
+        let sock = UdpSocket::bind("127.0.0.1:0").unwrap();
+        sock.set_read_timeout(Some(Duration::from_millis(300))).unwrap();
+        let dst: SocketAddr = format!("127.0.0.1:{}", port).parse().unwrap();
+        let mut buf = [0u8; 2048];
+        let mut cid: Option<[u8; 8]> = None;
+        let deadline = Instant::now() + Duration::from_secs(6);
+        while cid.is_none() && Instant::now() < deadline {
+            let _ = sock.send_to(&connect_bytes(5), dst);
+            if let Ok((16, _)) = sock.recv_from(&mut buf) {
+                cid = Some(buf[8..16].try_into().unwrap());
+            }
+        }
+        let cid = cid.expect("harness: the udp tracker did not answer a connect request");
+        let hash = [0x77u8; 20];
+        let pid = [0x55u8; 20];
+        let _ = sock.send_to(&announce_bytes(&cid, 11, &hash, &pid, 1, 2, 5, 6881), dst);
+        let before = matches!(sock.recv_from(&mut buf), Ok((n, _)) if n >= 20 && buf[..4] == [0, 0, 0, 1]);
+        std::thread::sleep(Duration::from_secs(if uring { 9 } else { 5 }));
+        let _ = sock.send_to(&announce_bytes(&cid, 12, &hash, &pid, 1, 0, 5, 6881), dst);
+        sock.set_read_timeout(Some(Duration::from_millis(800))).unwrap();
+        let after = sock.recv_from(&mut buf).is_ok();
+        *header = cq::b(uring).to_string();
+        items.push(format!("({}, {})", cq::b(before), cq::b(after)));
+    });
+}
